@@ -115,6 +115,10 @@ func run(c *vf.Ctx) {
 		}()
 		prof := profiles(c, r, i, nh)
 		ops := genHistory(r, prof)
+		if i%10 == 7 && !prof.overwrite {
+			ops = singleLeafHistory(r, prof)
+			c.Count("histories:single-leaf-root-shared", 1)
+		}
 		hid := fmt.Sprintf("h%d", i)
 		cfgs := twinsFor(r, prof, c.Quick())
 		c.Count("histories:"+prof.name, 1)
